@@ -72,6 +72,7 @@ func init() {
 							return
 						}
 						ops := []Op{{Kind: st, A: val}}
+						c.CurCase(func() *fw.Case { return &fw.Case{Kind: "hist-c05", S: fw.Strs(start), Ops: opsToQS(ops)} })
 						w := Replay(start, ops)
 						c.Eval()
 						c.R.Transitions++
@@ -101,6 +102,7 @@ func init() {
 							return
 						}
 						ops := []Op{{Kind: st, A: string(s)}}
+						c.CurCase(func() *fw.Case { return &fw.Case{Kind: "hist-c05", S: fw.Strs(start), Ops: opsToQS(ops)} })
 						w := Replay(start, ops)
 						c.Eval()
 						c.R.Transitions++
